@@ -193,7 +193,11 @@ impl SassCalculation {
                 Some(CalculationArg::Number(max)),
             ) => {
                 if min.has_compatible_units(&value.unit) && min.has_compatible_units(&max.unit) {
-                    if value.num <= min.num.convert(min.unit(), value.unit()) {
+                    // clamp(MIN, VAL, MAX) is max(MIN, min(VAL, MAX)), so MIN wins
+                    // over MAX if they are in the wrong order
+                    if value.num <= min.num.convert(min.unit(), value.unit())
+                        || max.num.convert(max.unit(), min.unit()) < min.num
+                    {
                         return Ok(Value::Dimension(min));
                     }
 
